@@ -32,10 +32,11 @@ def enc_pairs(d):
     return enc_list(lambda kv: enc_str(kv[0]) + enc_str(kv[1]), list(d.items()))
 
 
-def enc_config(user_config):
+def enc_config(user_config, draws=()):
     """Encode the *resolved* Config (built by the real emmet.config.Config) for the model.
     Raises NotModelled for configurations outside the model (callbacks that change text, option values
-    of a type the library does not document, ...)."""
+    of a type the library does not document, ...).
+    `draws`: the raw draws of the randint oracle of lorem text (harness/lorem_util.py); empty for lorem-free cases."""
     from emmet.config import Config
     from emmet.snippets import markup_snippets, xsl_snippets, pug_snippets
     uc = copy.deepcopy(user_config)
@@ -147,6 +148,7 @@ def enc_config(user_config):
     w += enc_str(_s(bem_element) if bem_enabled else '')
     w += enc_str(_s(bem_modifier) if bem_enabled else '')
     w += enc_opt(enc_str, ctx_class)
+    w += [len(draws)] + [int(d) for d in draws]
     return w
 
 
@@ -200,13 +202,24 @@ def _limited_call(fn):
         return fn()
 
 
+def _under_oracle(abbr, user_config, fn):
+    """fn() with emmet.markup.lorem.randint bound to the deterministic oracle of this case (harness/lorem_oracle.py):
+    lorem text becomes a function of (abbr, config), the same draws go to the extracted model (model_draws)."""
+    import lorem_oracle as lo
+    with lo.patched(lo.Oracle(lo.seed_of(abbr, user_config))):
+        return fn()
+
+
 def impl_expand(abbr, user_config):
     from emmet import expand
     from common import Hang
+    from lorem_oracle import OracleLimit
     try:
-        return ('ok', _limited_call(lambda: expand(abbr, copy.deepcopy(user_config))))
+        return ('ok', _limited_call(lambda: _under_oracle(abbr, user_config, lambda: expand(abbr, copy.deepcopy(user_config)))))
     except Hang:
         return ('hang', CALL_LIMIT_S)
+    except OracleLimit:
+        return ('oracle-limit',)            # a lorem count beyond the draw limit: not compared
     except Exception as e:  # noqa
         return classify_exc(e)
 
@@ -233,11 +246,14 @@ def impl_events(abbr, user_config):
     def call():
         del events[:]
         return expand(abbr, copy.deepcopy(uc))
+    from lorem_oracle import OracleLimit
     try:
-        out = _limited_call(call)
+        out = _limited_call(lambda: _under_oracle(abbr, user_config, call))
         return ('ok', out, events)
     except Hang:
         return ('hang', CALL_LIMIT_S)
+    except OracleLimit:
+        return ('oracle-limit',)
     except Exception as e:  # noqa
         return classify_exc(e)
 
@@ -271,7 +287,9 @@ def decode_events(w):
 
 
 def mentions_lorem(abbr, user_config):
-    """Conservative test: could a node name match the lorem pattern (random text)?"""
+    """Conservative test: could a node name match the lorem pattern (random text)?  Such cases ARE compared with the model
+    (run_cases: the implementation runs under the oracle of harness/lorem_oracle.py and the model gets the same draws); the
+    test is kept for streams whose statement is about lorem-free abbreviations."""
     if 'lorem' in abbr.lower():
         return True
     for v in (user_config.get('snippets') or {}).values():
@@ -299,9 +317,10 @@ def run_cases(ctx, model, cases, label, oracle=None, mode='expand', compare_mode
                 ctx.property_failure('%s:%s|%s' % (label, abbr, canon_cfg(cfg)),
                                      '%s expand(%r, %s): %s' % (label, abbr, canon_cfg(cfg), bad),
                                      {'component': label, 'abbr': abbr, 'config': cfg, 'impl': repr(r)[:500], 'why': bad})
-        if compare_model and model is not None and not mentions_lorem(abbr, cfg):
+        if compare_model and model is not None:
             try:
-                wires.append([3 if mode == 'events' else 2] + enc_config(cfg) + enc_str(abbr))
+                from lorem_oracle import model_draws
+                wires.append([3 if mode == 'events' else 2] + enc_config(cfg, model_draws(abbr, cfg)) + enc_str(abbr))
                 idx.append(k)
             except NotModelled:
                 ctx.cover(label + ':not-modelled')
@@ -317,7 +336,7 @@ def run_cases(ctx, model, cases, label, oracle=None, mode='expand', compare_mode
             else:
                 mo = decode_expand(w)
                 im = impl[k]
-            if im[0] == 'recursion':
+            if im[0] in ('recursion', 'oracle-limit'):
                 continue
             if mo != im:
                 dis += 1
